@@ -57,6 +57,39 @@ class Tfy:
         return obj
 
 
+class TfyStored(Tfy):
+    """Returns the *same* stored, already tagified expansion on every call (a component that keeps its rendered tag)."""
+
+    def __init__(self, res: Any, raw: bool = False) -> None:
+        super().__init__(res, raw)
+        self._stored = None
+
+    def tagify(self):
+        self.calls += 1
+        if self._stored is None:
+            self._stored = Tfy(self.res, self.raw).tagify()
+        return self._stored
+
+
+class TfyStr(str):
+    """A str *subclass* that is tagifiable (lazy string / message key with its own tagify())."""
+
+    def __new__(cls, res: Any):
+        o = super().__new__(cls, "lazy-string-not-expanded")
+        o.res = res
+        return o
+
+    def tagify(self):
+        return Tfy(self.res).tagify()
+
+
+class TfyIter(Tfy):
+    """A tagifiable container component that can also be iterated (but is not a list / tuple / TagList)."""
+
+    def __iter__(self):
+        return iter(["iterated-item-1", "iterated-item-2"])
+
+
 class TfyRepr(Tfy):
     """Tagifiable *and* self-rendering."""
 
@@ -129,6 +162,13 @@ def _build(r: Any, memo: Any = None):
     if k == "headc":
         return h.head_content(*[build(x) for x in r["kids"]])
     if k == "tfy":
+        v = r.get("variant")
+        if v == "stored":
+            return TfyStored(r["res"], bool(r.get("raw")))
+        if v == "strsub":
+            return TfyStr(r["res"])
+        if v == "iter":
+            return TfyIter(r["res"], bool(r.get("raw")))
         cls = TfyRepr if r.get("repr") else Tfy
         return cls(r["res"], bool(r.get("raw")))
     if k == "list":
